@@ -70,6 +70,11 @@ PROPS = {
     "C20": dict(level="other", extra=lambda prog, S, tier, seed: [__import__("extras").run_child("snap_float_grid", REPO, 20000 if tier == "quick" else 200000),
                                                     __import__("extras").run_child("tools_files", REPO, seed, 30 if tier == "quick" else 400),
                                                     __import__("extras").run_child("sensitivity_seed", REPO)]),
+    "C06": dict(level="other", scans=lambda p, s, t: [scan.scan_writers(p, "arrival-finish-writers", {"arrival_tick", "finish_tick"},
+                                                                         {"PipelineRuntimeStatus.__init__", "PipelineRuntimeStatus.record_arrival",
+                                                                          "PipelineRuntimeStatus.record_finish"}, t)],
+                extra=lambda prog, S, tier, seed: [__import__("extras").run_child("sim_recount", REPO, seed, 60 if tier == "quick" else 600),
+                                                    __import__("extras").run_child("sim_uncontended", REPO, seed, 80 if tier == "quick" else 800)]),
     "C16": dict(scans=_scan_suspend),
     "C17": dict(scans=_scan_suspend),
     "C18": dict(scans=_scan_suspend, native_budget=25),
